@@ -187,19 +187,25 @@ def rule_union_index(ctx, cd):
     n = 0
     for name in ("_fields_as_union.j2", "_fields_as_variant.j2"):
         t = cd.ts.get("cpp", name)
-        for node, stack in j2front.walk(t.ast):
-            if not isinstance(node, N.For):
-                continue
+        # the template's own loops and those of helper macros it calls (a shared macro is judged once per call, in the caller's terms)
+        loops = []
+        for nodes, mapping in _codec.bodies_in_caller_terms(cd.ts, t):
+            for top in nodes:
+                for node in ([top] if isinstance(top, N.For) else []) + list(top.find_all(N.For)):
+                    loops.append((node, mapping))
+        for node, mapping in loops:
             uses_index = any(xs(e) in ("loop.index0", "loop.index") for e in node.find_all(N.Getattr))
             if not uses_index:
                 continue
             n += 1
             # what is numbered?
             txt = squash("".join(d.data for d in node.find_all(N.TemplateData)))[:60]
-            ok = xs(node.iter) == "composite_type.fields_except_padding" and node.test is None
+            with j2front.xs_with(mapping or None):
+                it = xs(node.iter)
+            ok = it == "composite_type.fields_except_padding" and node.test is None
             ctx.ob(R, t.rel, f"loop numbering fields near `{txt[:40]}`", ok,
                    "iterates composite_type.fields_except_padding unfiltered" if ok else
-                   f"`for ... in {xs(node.iter)}" + (f" if {xs(node.test)}" if node.test is not None else "") +
+                   f"`for ... in {it}" + (f" if {xs(node.test)}" if node.test is not None else "") +
                    "`: loop.index0 here does not denote the same field as in the other loops (wrong alternative destroyed / copied)", node.lineno)
     ctx.floor(R, n, 7)
     # tag producers in (de)serialization use IndexOf::<field id>
